@@ -7,6 +7,12 @@ def handle : List String → Option String
   | ["rq.get", target, host] => some (toHex (getReq (ofHex target) (ofHex host)))
   | ["rq.body", method, target, host, ctype, body] =>
     some (toHex (withBody (ofHex method) (ofHex target) (ofHex host) (ofHex ctype) (ofHex body)))
+  | "rq.groups" :: ids =>
+    let l := ids.filterMap fun x => match x.splitOn "." with
+      | [a, b] => some (a.toNat!, b.toNat!)
+      | _ => none
+    let gs := groupByAid l
+    some (if gs.isEmpty then "-" else "|".intercalate (gs.map fun g => ",".intercalate (g.map fun k => s!"{k.1}.{k.2}")))
   | "rq.url" :: ids =>
     some (charUrl (ids.filterMap fun x => match x.splitOn "." with
       | [a, b] => some (a.toInt!, b.toInt!)
